@@ -65,7 +65,7 @@ func peerSetOps(p *an.Prog, d *types.Named, m *ssa.Function) peerSet {
 					ps.ranges = append(ps.ranges, x)
 				}
 			case ssa.CallInstruction:
-				if b, ok := x.Common().Value.(*ssa.Builtin); ok && b.Name() == "delete" && isSet(x.Common().Args[0]) {
+				if b, ok := x.Common().Value.(*ssa.Builtin); ok && an.Ident(b.Name()) == "delete" && isSet(x.Common().Args[0]) {
 					ps.deletes = append(ps.deletes, x)
 				}
 			}
@@ -320,7 +320,7 @@ func runC11(p *an.Prog, r *an.Run, tier string) {
 			appended := false
 			for _, in := range dl.Block().Instrs {
 				if c, ok := in.(*ssa.Call); ok {
-					if b, ok := c.Call.Value.(*ssa.Builtin); ok && b.Name() == "append" && len(c.Call.Args) == 2 {
+					if b, ok := c.Call.Value.(*ssa.Builtin); ok && an.Ident(b.Name()) == "append" && len(c.Call.Args) == 2 {
 						els, ok := variadicElems(c.Call.Args[1])
 						if ok {
 							for _, e := range els {
@@ -340,7 +340,7 @@ func runC11(p *an.Prog, r *an.Run, tier string) {
 		for _, fn := range an.WithAnon(m) {
 			for _, c := range an.Calls(fn, false) {
 				b, ok := c.Common().Value.(*ssa.Builtin)
-				if !ok || b.Name() != "append" {
+				if !ok || an.Ident(b.Name()) != "append" {
 					continue
 				}
 				// appends to the []NodeID result
@@ -487,7 +487,7 @@ func runC11(p *an.Prog, r *an.Run, tier string) {
 
 func isNamedType(t types.Type, name string) bool {
 	n, ok := t.(*types.Named)
-	return ok && n.Obj().Name() == name
+	return ok && an.TName(n) == name
 }
 
 func derivesFromLookup(d *an.Deriv, lk ssa.Value) bool {
